@@ -70,7 +70,7 @@ theorem ltB_replicate : ∀ (m : Nat) (s : Bytes), s.length < m → (∀ b ∈ s
 /-! ### key encoding -/
 
 theorem be32_decode (n : Nat) (h : n < 4294967296) :
-    (n / 16777216 % 256) * 16777216 + (n / 65536 % 256) * 65536 + (n / 256 % 256) * 256 + n % 256 = n := by
+    16777216 * (n / 16777216 % 256) + 65536 * (n / 65536 % 256) + 256 * (n / 256 % 256) + n % 256 = n := by
   omega
 
 theorem decode_prefix (node : Bytes) (pn : Nat) (r : Bytes) (h : node.length < 4294967296) :
